@@ -420,8 +420,11 @@ def build_pipeline(cfg: dict, extra: dict | None = None, real: int | None = None
     return DetectionPipeline(**kw)
 
 
+NANTICK = -999983   # a readout time that is not a number (an invalid schedule for the specification: it is not increasing)
+
+
 def times_seconds(cfg: dict) -> list:
-    return [t / TICK for t in cfg["times"]]
+    return [float("nan") if t == NANTICK else t / TICK for t in cfg["times"]]
 
 
 def build_readout(cfg: dict, how: str = "list"):
